@@ -115,6 +115,7 @@ func decodeTextFrames(o *Obs, op wire.Op, frames []wire.TextFrame) {
 	{
 		switch op.Kind {
 		case "get":
+			usedIdx := map[int]bool{}
 			for _, f := range frames {
 				switch {
 				case f.IsVal:
@@ -123,8 +124,9 @@ func decodeTextFrames(o *Obs, op wire.Op, frames []wire.TextFrame) {
 					}
 					idx := -1
 					for i, k := range op.Keys {
-						if k == f.Key {
+						if k == f.Key && !usedIdx[i] {
 							idx = i
+							usedIdx[i] = true
 							break
 						}
 					}
